@@ -40,6 +40,14 @@ def factor(kind):
     return a[kind]
 
 
+FRAME = "case['fac'] == case['fac_before']"  # frame: the operands' factor maps are not modified
+
+
+def _snap(case):
+    case["fac_before"] = [dict(d) for d in case["fac"]]
+    return case
+
+
 def graph_with(exprs):
     F = ExpressionGraph()
     F.e2i = {}
@@ -51,7 +59,7 @@ def case_unary(kinds, keys):
     """fac = [ {key_j: factor kinds_j} ]"""
     def make():
         F, idx = graph_with([factor(k) for k in kinds])
-        return dict(v=None, fac=[dict(zip(keys, idx))], sf=[None], F=F)
+        return _snap(dict(v=None, fac=[dict(zip(keys, idx))], sf=[None], F=F))
 
     return make
 
@@ -70,7 +78,7 @@ def register(reg):
             F_ + "handle_conj", dict(case=Native(mk)), call=CALL,
             ensures=["sorted(result.keys()) == sorted(case['fac'][0].keys())",
                      "all([ceq(fval(case['F'], result[k], env), cconj(fval(case['F'], case['fac'][0][k], env)))"
-                     " for k in case['fac'][0]])"],
+                     " for k in case['fac'][0]])", FRAME],
             properties=["C09", "C01"], modular=False, name=f"handle_conj[{'+'.join(kinds)}]",
             bounded="operand shapes: <=2 argument keys, factor kinds " + ",".join(FACTOR_KINDS),
             mutants=[("graph_insert(F, Conj(f0))", "graph_insert(F, f0)")] if kinds == ("c",) else []))
@@ -80,13 +88,13 @@ def register(reg):
                                  (("cx",), ("lit", "f"), [(0, 1)], [(0, 1), (0, 2)])]:
         def mk(k0=k0, k1=k1, keys0=keys0, keys1=keys1):
             F, idx = graph_with([factor(k) for k in k0 + k1])
-            return dict(v=None, fac=[dict(zip(keys0, idx[: len(k0)])), dict(zip(keys1, idx[len(k0):]))], sf=[None, None], F=F)
+            return _snap(dict(v=None, fac=[dict(zip(keys0, idx[: len(k0)])), dict(zip(keys1, idx[len(k0):]))], sf=[None, None], F=F))
 
         reg.add(Contract(
             F_ + "handle_sum", dict(case=Native(mk)), call=CALL,
             ensures=["sorted(result.keys()) == sorted(set(case['fac'][0]) | set(case['fac'][1]))",
                      "all([ceq(fval(case['F'], result[k], env), cadd(fval_or_zero(case['F'], case['fac'][0], k, env),"
-                     " fval_or_zero(case['F'], case['fac'][1], k, env))) for k in result])"],
+                     " fval_or_zero(case['F'], case['fac'][1], k, env))) for k in result])", FRAME],
             properties=["C01", "C09"], modular=False, name=f"handle_sum[{'+'.join(k0)}|{'+'.join(k1)}|{keys0}{keys1}]",
             bounded="operand shapes enumerated in contracts/c_factorization.py",
             mutants=[("fisum = graph_insert(F, f0 + f1)", "fisum = graph_insert(F, f0 * f1)")] if k0 == ("f",) and k1 == ("c",) else []))
@@ -97,8 +105,8 @@ def register(reg):
             (("f",), ("c",), [(0,)], [(1,)], None, None), (("lit", "x0"), ("fg",), [(1,), (0,)], [(2,)], None, None)]:
         def mk(k0=k0, k1=k1, keys0=keys0, keys1=keys1, s0=s0, s1=s1):
             F, idx = graph_with([factor(k) for k in k0 + k1])
-            return dict(v=None, fac=[dict(zip(keys0, idx[: len(k0)])), dict(zip(keys1, idx[len(k0):]))],
-                        sf=[factor(s0) if s0 else None, factor(s1) if s1 else None], F=F)
+            return _snap(dict(v=None, fac=[dict(zip(keys0, idx[: len(k0)])), dict(zip(keys1, idx[len(k0):]))],
+                              sf=[factor(s0) if s0 else None, factor(s1) if s1 else None], F=F))
 
         if s0:
             ens = ["sorted(result.keys()) == sorted(case['fac'][1].keys())",
@@ -111,7 +119,7 @@ def register(reg):
                    "all([ceq(fval(case['F'], result[tuple(sorted(a + b))], env), cmul(fval(case['F'], case['fac'][0][a], env),"
                    " fval(case['F'], case['fac'][1][b], env))) for a in case['fac'][0] for b in case['fac'][1]])"]
         reg.add(Contract(
-            F_ + "handle_product", dict(case=Native(mk)), call=CALL, ensures=ens,
+            F_ + "handle_product", dict(case=Native(mk)), call=CALL, ensures=ens + [FRAME],
             properties=["C01", "C09"], modular=False, name=f"handle_product[{'+'.join(k0)}|{'+'.join(k1)}|{s0}|{s1}]",
             bounded="operand shapes enumerated in contracts/c_factorization.py",
             mutants=[("factors[k1] = graph_insert(F, f0 * f1)", "factors[k1] = graph_insert(F, f0 + f1)")] if s0 == "c" else []))
@@ -119,13 +127,13 @@ def register(reg):
     for k0, keys0, s1 in [(("f",), [(0,)], "c"), (("lit", "x0"), [(0,), (1,)], "fg"), (("one",), [(0, 1)], "cx")]:
         def mk(k0=k0, keys0=keys0, s1=s1):
             F, idx = graph_with([factor(k) for k in k0])
-            return dict(v=None, fac=[dict(zip(keys0, idx)), {}], sf=[None, factor(s1)], F=F)
+            return _snap(dict(v=None, fac=[dict(zip(keys0, idx)), {}], sf=[None, factor(s1)], F=F))
 
         reg.add(Contract(
             F_ + "handle_division", dict(case=Native(mk)), call=CALL,
             requires=["uval(case['sf'][1], env)[0] != 0 or uval(case['sf'][1], env)[1] != 0"],
             ensures=["sorted(result.keys()) == sorted(case['fac'][0].keys())",
-                     "all([ceq(fval(case['F'], result[k], env), cdiv(fval(case['F'], case['fac'][0][k], env), uval(case['sf'][1], env), env)) for k in result])"],
+                     "all([ceq(fval(case['F'], result[k], env), cdiv(fval(case['F'], case['fac'][0][k], env), uval(case['sf'][1], env), env)) for k in result])", FRAME],
             properties=["C01", "C09"], modular=False, name=f"handle_division[{'+'.join(k0)}|{s1}]",
             bounded="operand shapes enumerated in contracts/c_factorization.py",
             mutants=[("graph_insert(F, f0 / f1)", "graph_insert(F, f1 / f0)")] if s1 == "c" else []))
